@@ -215,6 +215,24 @@ func replayMut(line []byte, a *Acc) {
 				} else {
 					one("mut:set:readback-typed", fmt.Sprintf("SetValueForPath(<map with Go-typed members>, %q) failed (%v) where setting %s succeeded", c.P, e2, c.Val.Norm()))
 				}
+				// read, modify, set back at its own path (a map written over a map -- the very same object): it is there afterwards;
+				// and a value that was replaced is left alone (the caller may still hold it)
+				if cur, _ := mv.ValueForPath(c.P); cur != nil {
+					if cm, isMap := cur.(map[string]interface{}); isMap {
+						cm["zz"] = "n"
+						want := tagged.CanonGo(cm)
+						e3 := mv.SetValueForPath(cm, c.P)
+						got, _ := mv.ValueForPath(c.P)
+						if e3 != nil || tagged.CanonGo(got) != want {
+							one("mut:set:self-assignment", fmt.Sprintf("ValueForPath(%q), one entry added, SetValueForPath of the same map at the same path: afterwards the path holds %s (err %v), the map set was %s", c.P, tagged.CanonGo(got), e3, want))
+						}
+						held := tagged.CanonGo(cm)
+						mv.SetValueForPath(map[string]interface{}{"other": "o"}, c.P)
+						if tagged.CanonGo(cm) != held {
+							one("mut:set:replaced-value-modified", fmt.Sprintf("SetValueForPath(%q): the map that was replaced reads %s afterwards, it was %s", c.P, tagged.CanonGo(cm), held))
+						}
+					}
+				}
 			case "remove":
 				if ex, _ := mv.Exists(c.P); ex {
 					one("mut:remove:still-exists", desc+": path still exists")
